@@ -4,3 +4,7 @@ import Lace.Basic.Fmt
 import Lace.Spec.ISA
 import Lace.Model.VM
 import Lace.Props.C02
+import Lace.Basic.Keys
+import Lace.Model.Editor
+import Lace.Spec.RefEditor
+import Lace.Props.C20
